@@ -35,18 +35,18 @@ def P(pid, targets, bounded, text, note=None, level="proof", unverified=()):
                      unverified=list(unverified))
 
 
-P("C01", [f"{UT}:rlencode"], "bounded/C01.py",
+P("C01", [f"{UT}:rlencode", f"{CR}:index_pixels"], "bounded/C01.py",
   "Proof core shared with C02 (index construction for every pixel column and chunking); create/write/read "
   "round trip through real HDF5 files is covered by the bounded tier (all small matrices x input forms x dtypes "
   "x metadata documents).",
   unverified=["create/create_cooler/write_pixels (HDF5 I/O)", "ArrayLoader.__iter__", "api.matrix/pixels read path"],
   level="other")
 
-P("C02", [f"{UT}:rlencode"], "bounded/C02.py",
+P("C02", [f"{UT}:rlencode", f"{CR}:index_pixels", f"{CR}:index_bins"], "bounded/C02.py",
   "Proof: the chunked run-length encoder behind both offset indexes is verified for every input array and EVERY "
   "chunk size (the carry of the last value across each block boundary is a loop invariant; constancy of runs by an "
-  "induction lemma). Producer outputs are re-derived with raw h5py by the bounded tier.",
-  unverified=["index_pixels/index_bins loops", "write_info attributes", "producer stream order (merge/coarsen)"])
+  "induction lemma); index_pixels / index_bins are proved to build exactly the lower-bound (run-length) index of the sorted key column on top of rlencode's contract. Producer outputs are re-derived with raw h5py by the bounded tier.",
+  unverified=["write_info attributes", "producer stream order (merge/coarsen)", "write_pixels/prepare_pixels (HDF5 I/O)"])
 
 P("C03", [f"{RQ}:_comes_before", f"{RQ}:_contains", f"{RQ}:arg_prune_partition",
           f"{RQ}:CSRReader.get_spans", f"{RQ}:CSRReader.__call__",
@@ -83,8 +83,8 @@ P("C08", [f"{RED}:_greedy_prune_partition"], "bounded/C08.py",
   "Proof core: the pruned pixel partition consists of values of the coarse-row edge list only (no coarse row is split), strictly ordered, from 0 to nnz, for every edge list and chunk size. Bounded stand-in for the rest (all small coolers x factors x chunk sizes x workers against a block-aggregate model).",
   level="other", unverified=["CoolerCoarsener.__init__/_aggregate/__iter__", "_greedy_prune_partition", "coarsen_bins"])
 
-P("C09", [], "bounded/C09.py",
-  "Bounded stand-in only so far (plan level: all subsets of resolutions x bases; file level against direct coarsening).",
+P("C09", [f"{RED}:get_multiplier_sequence"], "bounded/C09.py",
+  "Proof core: the zoom plan (three loops with invariants and a variant): every non-base resolution is derived from the LARGEST smaller member dividing it with multiplier >= 2, a supplied base is never re-derived, and a non-derivable member is refused exactly. Bounded stand-in for the rest (plan level: all subsets of resolutions x bases; file level against direct coarsening).",
   level="other", unverified=["get_multiplier_sequence", "zoomify_cooler"])
 
 P("C10", [], "bounded/C10.py", "Bounded stand-in only so far.", level="other",
